@@ -14,7 +14,7 @@ PROPERTY = 'C01'
 RULE = ('event sequences from boot over {connect ok/refused/timeout, peer OPEN valid(hold 90)/hold 0/hold 3/bad version/'
         'wrong AS/hold 1/hold 2, KEEPALIVE, UPDATE, NOTIFICATION version-error/other, ROUTE-REFRESH, bad marker, bad '
         'length, unknown type, peer close, time to next timer, manual stop/start}, only physically possible events, '
-        'single-connection regime. BFS with fingerprint de-duplication + random walks + the grid NOTIFICATION error code '
+        'single-connection regime; wrong AS given in the My-AS field or only in the 4-octet-AS capability. BFS with fingerprint de-duplication + random walks + the grid NOTIFICATION error code '
         '0..255 x subcodes x data length x {OpenSent, OpenConfirm, Established} + the grid of messages shorter than their '
         'type\'s RFC minimum (OPEN < 29, UPDATE < 23, NOTIFICATION < 21, KEEPALIVE != 19). Non-trivial = sequence leaves '
         'Connect and has an event in OpenSent or later; distinct = distinct (fingerprint, event) pairs (BFS) / '
